@@ -26,7 +26,7 @@ META = {
         '(D4) Remove is written x: below 3.0 and -: from 3.0, both read as Remove.  (D5) only numbers, quantities and '
         'coordinates use %f (documented six decimals); everything else is exact.  (D6) assembly: every meta item but '
         'ver, every column with its remaining keys, every row key reach the grid; every column of every row is '
-        'emitted.  Not decided: numerical closeness; equality of rebuilt objects; json.dumps/loads (trusted).'),
+        'emitted.  (D7) date-time payloads: the reader converts the written instant into the named zone with astimezone (never replace/localize on the aware value), the writer emits isoformat() of the value itself plus the zone name.  Not decided: numerical closeness; equality of rebuilt objects; json.dumps/loads (trusted).'),
     'rule_text': 'obligations = ladder rows, kinds x (first-accepting entry, inclusion, capture markers) x 2 versions, '
                  'Remove rule, precision per kind, assembly facts',
     'trusted_base': ['re semantics of `.match`, `^`, `$`+MULTILINE, `.` without DOTALL; json.dumps/json.loads round-trip '
@@ -56,6 +56,9 @@ def run(ctx):
         for kind in _zinc.kinds_for(version):
             _kind(ctx, entries, kind, version)
     _assembly(ctx)
+    # date-time payloads: the reader converts the written instant, the writer never converts (shared with C17.D2)
+    from . import c17
+    c17._api(ctx, ctx.model, rule='C02.D7', only=('jsonparser', 'jsondumper'))
 
 
 def _type_order(ctx, entries):
@@ -498,19 +501,14 @@ def _assembly(ctx):
         else:
             ctx.violation('C02.D6', '%s::dump_row' % FD, t, 'cells are missing from / misplaced in dumped rows',
                           'dump_row is %s' % t, file=FD, line=dr.lineno, engine='E9')
+        from .. import match
         dm = m.func('jsondumper', 'dump_meta')
-        tm = [norm(x) for x in walk_no_nested(dm) if isinstance(x, ast.Assign)]
-        if "_meta['ver'] = str(version)" in tm:
-            ctx.ob('C02.D6', 'grid meta carries ver = str(version)', True, '%s:%d' % (FD, dm.lineno))
-        else:
-            ctx.violation('C02.D6', '%s::dump_meta' % FD, '; '.join(tm), 'the dumped grid has no (or a wrong) meta.ver',
-                          'dump_meta does not set ver', file=FD, line=dm.lineno, engine='E9')
+        sd = match.Script(ctx, 'C02.D6', [dm], FD, '%s::dump_meta' % FD)
+        sd.need(["_R_out['ver'] = str(_R_version)"], 'grid meta carries ver = str(version)',
+                'the dumped grid has no (or a wrong) meta.ver')
         dc = m.func('jsondumper', 'dump_column')
-        tc = [norm(x) for x in walk_no_nested(dc) if isinstance(x, ast.Assign)]
-        if "_meta['name'] = %s" % dc.args.args[0].arg in tc:
-            ctx.ob('C02.D6', 'each column object carries its name', True, '%s:%d' % (FD, dc.lineno))
-        else:
-            ctx.violation('C02.D6', '%s::dump_column' % FD, '; '.join(tc), 'dumped columns have no name',
-                          'dump_column does not set name', file=FD, line=dc.lineno, engine='E9')
+        sc2 = match.Script(ctx, 'C02.D6', [dc], FD, '%s::dump_column' % FD)
+        sc2.seed('col', dc.args.args[0].arg)
+        sc2.need(["_R_out['name'] = _R_col"], 'each column object carries its name', 'dumped columns have no (or a wrong) name')
     except (AnalysisError, IndexError) as e:
         ctx.error('C02.D6', 'writer shape: %s' % e)
